@@ -1,5 +1,6 @@
 import I2N.Lemmas.Graph
 import I2N.Lemmas.GraphResolve
+import I2N.Lemmas.GraphComplete
 /-!
 # C06 — The parsed dependency graph is well formed
 
@@ -188,5 +189,176 @@ example : ∀ x, ¬ RReach (resolve Demo.demo [] [⟨false, [[["leaves"]]]⟩] [
 example : (resolve Demo.demo [] [⟨false, [[["leaves"]]]⟩] [⟨"net1", []⟩, ⟨"net2", []⟩]).nodes.length = 28 := by decide
 
 end resolver
+
+end I2N.Props.C06
+
+
+/-!
+# Part 3: the checker is complete — an exact decision procedure
+
+`wellFormed_sound` says what an `ok` means.  The theorems below say what a `fail` means: the checker rejects a
+graph only if the graph violates C06 as the checker states it (`WF'`), for graphs of any size.  `WF'` is `WF` plus
+three demands the checker makes and `WF` does not state (net object first, no node its own clone, every flagged
+clone source has a clone); that `WF` alone does *not* imply acceptance is proved on three concrete graphs.
+-/
+namespace I2N.Props.C06
+open I2N.Graph
+
+/-- `WF'` is stronger than `WF`. -/
+theorem WF'_implies_WF (g : Graph) (h : WF' g) : WF g := h.toWF
+
+/-- Completeness of the checker: every graph that is well formed in the sense of `WF'` (the clauses of `WF`, the
+net object being the first object of every composite node, no node recorded as its own clone, every node flagged
+as clone source having a recorded clone) is accepted — any number of nodes and edges, in particular the rank
+computed by `size` relaxation rounds does strictly decrease along every edge of every acyclic graph. -/
+theorem wellFormed_complete (g : Graph) (h : WF' g) : g.wellFormed = true := wellFormed_complete' g h
+
+/-- The checker decides `WF'` exactly. -/
+theorem wellFormed_iff (g : Graph) : g.wellFormed = true ↔ WF' g := wellFormed_iff' g
+
+/-- A rejection by the Lean checker alone proves that the graph violates C06 (as stated by `WF'`). -/
+theorem rejected_not_WF' (g : Graph) (h : g.wellFormed = false) : ¬ WF' g :=
+  fun wf => by rw [wellFormed_complete g wf] at h; exact absurd h (by simp)
+
+/-- A rejected graph violates `WF` itself unless the rejection is for one of the three extra demands. -/
+theorem rejected_not_WF_or_extra (g : Graph) (h : g.wellFormed = false) :
+    ¬ WF g ∨
+    ¬ (∀ n ∈ g.nodes, n.flat = false → ∃ o rest, n.objs = o :: rest ∧ o.key = "nets") ∨
+    ¬ (∀ sc ∈ g.clones, sc.1 ≠ sc.2) ∨
+    ¬ (∀ i n, g.nodes[i]? = some n → n.cloneSource = true → ∃ sc ∈ g.clones, sc.1 = i) := by
+  by_cases h0 : WF g
+  · by_cases h1 : ∀ n ∈ g.nodes, n.flat = false → ∃ o rest, n.objs = o :: rest ∧ o.key = "nets"
+    · by_cases h2 : ∀ sc ∈ g.clones, sc.1 ≠ sc.2
+      · right; right; right
+        intro h3
+        exact rejected_not_WF' g h { toWF := h0, net_first := h1, clones_irrefl := h2, clone_flag := h3 }
+      · exact Or.inr (Or.inr (Or.inl h2))
+    · exact Or.inr (Or.inl h1)
+  · exact Or.inl h0
+
+/-- Completeness of the acyclicity clause on its own: if every setup edge connects two nodes of the graph and no
+node is its own proper ancestor (paths of any length), then the rank computed by `size` relaxation rounds from
+all-zero strictly decreases along every setup edge.  (The relaxation converges within `size` rounds on a DAG: a
+value still rising in round `k+1` starts a walk of `k+1` edges, and an acyclic graph has no walk of `size` edges.) -/
+theorem checkAcyclic_complete (g : Graph)
+    (hr : ∀ e ∈ g.setup, e.child < g.size ∧ e.parent < g.size) (hac : ∀ n, ¬ g.Reach n n) :
+    g.checkAcyclic = true := I2N.Graph.checkAcyclic_complete g hr hac
+
+/-- the acyclicity clause decides acyclicity on graphs with in-range edges -/
+theorem checkAcyclic_iff (g : Graph) (hr : ∀ e ∈ g.setup, e.child < g.size ∧ e.parent < g.size) :
+    g.checkAcyclic = true ↔ ∀ n, ¬ g.Reach n n := I2N.Graph.checkAcyclic_iff g hr
+
+/-- the in-range hypothesis of `checkAcyclic_complete` cannot be dropped: an edge from outside the graph has no
+rank to decrease from -/
+example : (∀ n, ¬ ({ nodes := [], setup := [⟨0, 1, "I"⟩], cleanup := [] } : Graph).Reach n n) ∧
+    ({ nodes := [], setup := [⟨0, 1, "I"⟩], cleanup := [] } : Graph).checkAcyclic = false := by
+  refine ⟨rankOK_acyclic _ [1, 0] (by decide), by decide⟩
+
+/-- A graph rejected by the acyclicity clause (its edges being in range) has a cycle. -/
+theorem rejected_has_cycle (g : Graph) (hrg : g.checkRange = true) (hac : g.checkAcyclic = false) :
+    ∃ n, g.Reach n n := cycle_of_rejected g hrg hac
+
+/-- The remaining clauses are decided exactly, each by its own statement. -/
+theorem clauses_iff (g : Graph) :
+    (g.checkIds = true ↔ (g.nodes.map (·.id)).Nodup) ∧
+    (g.checkRange = true ↔
+      (∀ e ∈ g.setup, e.child < g.size ∧ e.parent < g.size ∧ e.child ≠ e.parent) ∧
+      (∀ e ∈ g.cleanup, e.child < g.size ∧ e.parent < g.size)) ∧
+    (g.checkSymmetric = true ↔ ∀ e, e ∈ g.setup ↔ e ∈ g.cleanup) ∧
+    (g.checkRoot = true ↔ g.RootOK) ∧
+    (g.checkProducers = true ↔ g.ProducersOK) ∧
+    (g.checkEdgeObjects = true ↔ g.EdgeObjectsOK) ∧
+    (g.checkObjects = true ↔ ∀ n ∈ g.nodes, n.ObjectsOK) ∧
+    (g.checkClones = true ↔ g.ClonesOK) :=
+  ⟨checkIds_iff g, checkRange_iff g, checkSymmetric_iff g, checkRoot_iff g, checkProducers_iff g,
+   checkEdgeObjects_iff g, checkObjects_iff g, checkClones_iff g⟩
+
+/-! ### `WF` alone does not imply acceptance: the three gaps, each on a concrete graph -/
+
+/-- `demo` with the vm object of the leaf listed before its net object -/
+def demoNetSecond : Graph :=
+  { demo with nodes := [
+      { id := "1-leaf", worker := "net1", flat := false, sharedRoot := false, objectRoot := "", cloneSource := false,
+        paramNets := ["net1"], paramVms := ["vm1"],
+        objs := [⟨"vms", "vm1", "V", "", "0root", ""⟩, ⟨"nets", "net1", "N", "", "0root", ""⟩,
+                 ⟨"images", "image1_vm1", "I", "install", "install", ""⟩] },
+      { id := "1a1-install", worker := "net1", flat := false, sharedRoot := false, objectRoot := "I",
+        cloneSource := false, paramNets := ["net1"], paramVms := ["vm1"],
+        objs := [⟨"nets", "net1", "N", "", "0root", ""⟩, ⟨"vms", "vm1", "V", "", "", ""⟩,
+                 ⟨"images", "image1_vm1", "I", "", "0root", "install"⟩] },
+      { id := "1-noop", worker := "", flat := true, sharedRoot := true, objectRoot := "", cloneSource := false,
+        paramNets := [], paramVms := [], objs := [] }] }
+
+/-- `demo` with the leaf flagged as a clone source; `clones` is supplied by the two variants below -/
+def demoFlagged (clones : List (Nat × Nat)) : Graph :=
+  { demo with
+    nodes := [
+      { id := "1-leaf", worker := "net1", flat := false, sharedRoot := false, objectRoot := "", cloneSource := true,
+        paramNets := ["net1"], paramVms := ["vm1"],
+        objs := [⟨"nets", "net1", "N", "", "0root", ""⟩, ⟨"vms", "vm1", "V", "", "0root", ""⟩,
+                 ⟨"images", "image1_vm1", "I", "install", "install", ""⟩] },
+      { id := "1a1-install", worker := "net1", flat := false, sharedRoot := false, objectRoot := "I",
+        cloneSource := false, paramNets := ["net1"], paramVms := ["vm1"],
+        objs := [⟨"nets", "net1", "N", "", "0root", ""⟩, ⟨"vms", "vm1", "V", "", "", ""⟩,
+                 ⟨"images", "image1_vm1", "I", "", "0root", "install"⟩] },
+      { id := "1-noop", worker := "", flat := true, sharedRoot := true, objectRoot := "", cloneSource := false,
+        paramNets := [], paramVms := [], objs := [] }],
+    clones := clones }
+
+/-- Gap 1 (`net_first`): a graph whose leaf lists its vm before its net satisfies `WF` (it has exactly one net,
+equal to the `nets` parameter) and is rejected (`Node.checkObjects` demands the net *first*). -/
+theorem WF_not_complete_net_first : WF demoNetSecond ∧ demoNetSecond.wellFormed = false := by
+  refine ⟨WF_of_clauses _ (by decide) (by decide) (by decide) (by decide) (by decide) (by decide) (by decide)
+    ?_ (checkClones_sound _ (by decide)).2, by decide⟩
+  intro n hn _
+  simp only [demoNetSecond, List.mem_cons, List.not_mem_nil, or_false] at hn
+  rcases hn with rfl | rfl | rfl
+  · exact ⟨"net1", by decide, by decide, by decide⟩
+  · exact ⟨"net1", by decide, by decide, by decide⟩
+  · contradiction
+
+/-- Gap 2 (`clones_irrefl`): a node recorded as its own clone satisfies `WF.clone_sources` and is rejected. -/
+theorem WF_not_complete_self_clone : WF (demoFlagged [(0, 0)]) ∧ (demoFlagged [(0, 0)]).wellFormed = false := by
+  refine ⟨WF_of_clauses _ (by decide) (by decide) (by decide) (by decide) (by decide) (by decide) (by decide)
+    (checkObjects_sound _ (by decide)) ?_, by decide⟩
+  intro sc hsc
+  simp only [demoFlagged, List.mem_cons, List.not_mem_nil, or_false] at hsc
+  subst hsc
+  exact ⟨_, _, rfl, rfl, by decide, by decide, by decide, by decide⟩
+
+/-- Gap 3 (`clone_flag`): a node flagged as clone source without any recorded clone satisfies `WF` (its
+`clone_sources` only speaks about recorded pairs) and is rejected. -/
+theorem WF_not_complete_flag_without_clone : WF (demoFlagged []) ∧ (demoFlagged []).wellFormed = false := by
+  refine ⟨WF_of_clauses _ (by decide) (by decide) (by decide) (by decide) (by decide) (by decide) (by decide)
+    (checkObjects_sound _ (by decide)) ?_, by decide⟩
+  intro sc hsc
+  simp [demoFlagged] at hsc
+
+/-- Hence completeness with respect to `WF` as stated is false of the checker. -/
+theorem wellFormed_complete_for_WF_false : ¬ ∀ g : Graph, WF g → g.wellFormed = true := fun h => by
+  have := h _ WF_not_complete_net_first.1
+  rw [WF_not_complete_net_first.2] at this
+  exact absurd this (by simp)
+
+/-! ### non-vacuity -/
+
+/-- the accepted 3-node graph satisfies `WF'` (hypothesis of `wellFormed_complete`) … -/
+example : WF' demo := (wellFormed_iff demo).mp (by decide)
+/-- … and the three gap graphs do not, although they satisfy `WF` -/
+example : ¬ WF' demoNetSecond := rejected_not_WF' _ (by decide)
+example : ¬ WF' (demoFlagged [(0, 0)]) := rejected_not_WF' _ (by decide)
+example : ¬ WF' (demoFlagged []) := rejected_not_WF' _ (by decide)
+/-- the 3-node graph with a back edge: rejected by the checker, therefore (no oracle, no printed witness needed)
+not well formed, and it has a cycle -/
+example : ¬ WF' ({ demo with setup := demo.setup ++ [⟨1, 0, "I"⟩], cleanup := demo.cleanup ++ [⟨1, 0, "I"⟩] } : Graph) :=
+  rejected_not_WF' _ (by decide)
+example : ∃ n, ({ demo with setup := demo.setup ++ [⟨1, 0, "I"⟩], cleanup := demo.cleanup ++ [⟨1, 0, "I"⟩] } : Graph).Reach n n :=
+  rejected_has_cycle _ (by decide) (by decide)
+/-- the 3-node graph with the producer edge re-routed: rejected, hence not well formed -/
+example : ¬ WF' ({ demo with setup := [⟨1, 2, "I"⟩, ⟨0, 2, "I"⟩], cleanup := [⟨1, 2, "I"⟩, ⟨0, 2, "I"⟩] } : Graph) :=
+  rejected_not_WF' _ (by decide)
+/-- `checkAcyclic_complete` on a non-trivial instance: `demo`'s edges are in range and it is acyclic -/
+example : (∀ e ∈ demo.setup, e.child < demo.size ∧ e.parent < demo.size) ∧ ∀ n, ¬ demo.Reach n n :=
+  ⟨by decide, acyclic_of_rank demo [2, 1, 0] (by decide)⟩
 
 end I2N.Props.C06
